@@ -66,8 +66,20 @@ Example C19_concrete :
    map pPsi (order_xpoints (1 # 100000) 1 (fun _ => true) [(3 # 2, 3 # 10, 7 # 10); (3 # 2, -(3 # 10), 3 # 4)]) = [3 # 4; 7 # 10])%Q.
 Proof. vm_compute. split; reflexivity. Qed.
 
+(* findLegs: the two legs traced from an X-point are labelled by the major radius of their STRIKE points (the statement `if leg_lines[0][-1].R > leg_lines[1][-1].R:
+   leg_lines = leg_lines[::-1]` is checked for exact form on every run): whatever order the legs are traced in and wherever they leave the X-point, 'inner' is the leg
+   whose strike point has the smaller major radius, and the two labels are the two traced legs *)
+Definition label_legs {A : Type} (strikeR : A -> Q) (l0 l1 : A) : A * A := if Qlt_le_dec (strikeR l1) (strikeR l0) then (l1, l0) else (l0, l1).
+Theorem C19_leg_labels : forall (A : Type) (strikeR : A -> Q) (l0 l1 : A),
+  let '(inner, outer) := label_legs strikeR l0 l1 in
+  (strikeR inner <= strikeR outer)%Q /\ ((inner = l0 /\ outer = l1) \/ (inner = l1 /\ outer = l0)).
+Proof.
+  intros A strikeR l0 l1. unfold label_legs. destruct (Qlt_le_dec (strikeR l1) (strikeR l0)) as [H|H]; split; auto; apply Qlt_le_weak; exact H.
+Qed.
+
 Print Assumptions C19_newton_refinement.
 Print Assumptions C19_classification_exact_on_quadratics.
 Print Assumptions C19_exactly_once.
 Print Assumptions C19_ordering.
 Print Assumptions C19_selection.
+Print Assumptions C19_leg_labels.
